@@ -684,6 +684,93 @@ _DELEGATES = {
 }
 
 
+_OBSERVERS = {"__contains__", "__iter__", "__reversed__", "__len__", "index", "count", "get", "keys", "items",
+              "values", "isdisjoint", "copy"}
+
+
+def _observer_overrides(chk: Check) -> None:
+    """an observer the abc mixins would provide (index, count, in, reversed, get, the views), or
+    an inherited read primitive, that a wrapper defines itself must be the same-named operation
+    of the wrapped store on the same arguments: anything else answers differently from the
+    built-in collection for some argument"""
+    repo = chk.repo
+    roots = [repo.cls("SetWrapper"), repo.cls("ListWrapper"), repo.cls("DictWrapper")]
+    for c in sorted({k for r in roots for k in [r] + repo.subclasses(r)}, key=lambda k: k.qualname):
+        for nm in sorted(_OBSERVERS & set(c.methods)):
+            if (c.name, nm) in _DELEGATES or any((r.name, nm) in _DELEGATES and c.is_subclass_of(r) for r in roots):
+                continue            # the abstract primitives: compared with the table above
+            f = c.methods[nm]
+            chk.saw(f)
+            me = f.self_name
+            a = f.node.args
+            ps = [x.arg for x in a.posonlyargs + a.args][1:]
+            body = [s_ for s_ in f.node.body if not (isinstance(s_, ast.Expr) and isinstance(s_.value, ast.Constant))]
+            ok = False
+            got = unparse(body[0])[:60] if body else "-"
+            if len(body) == 1 and isinstance(body[0], ast.Return) and body[0].value is not None:
+                v = body[0].value
+                store = (me, "_data")
+                if isinstance(v, ast.Call) and isinstance(v.func, ast.Attribute) and v.func.attr == nm \
+                        and attr_path(v.func.value) == store and all(
+                            k.arg is not None and attr_path(k.value) == (k.arg,) for k in v.keywords):
+                    # (the normal form may spell trailing arguments as name=name)
+                    args = [attr_path(x) if not isinstance(x, ast.Starred) else ("*",) + (attr_path(x.value) or ())
+                            for x in v.args] + [(k.arg,) for k in v.keywords]
+                    want = [(p_,) for p_ in ps] + ([("*", a.vararg.arg)] if a.vararg else [])
+                    ok = args == want and not a.kwarg and not a.kwonlyargs
+                elif nm == "__contains__" and isinstance(v, ast.Compare) and len(v.ops) == 1 and \
+                        isinstance(v.ops[0], ast.In) and attr_path(v.left) == tuple(ps[:1]) and \
+                        attr_path(v.comparators[0]) == store:
+                    ok = True
+                elif nm in ("__iter__", "__reversed__", "__len__") and isinstance(v, ast.Call) and \
+                        isinstance(v.func, ast.Name) and v.func.id == nm.strip("_") and len(v.args) == 1 \
+                        and attr_path(v.args[0]) == store and not ps:
+                    ok = True
+            chk.ob("R16.3", "%s.%s:observer-is-the-store's" % (c.qualname, nm), ok, f.loc(),
+                   "%s defines %s itself; it must be exactly self._data.%s(<its parameters, unchanged>) — "
+                   "it is %s" % (c.qualname, nm, nm, got), 2)
+
+
+def _write_overrides(chk: Check) -> None:
+    """a subclass that redefines the storing primitive of DictWrapper / ListWrapper must still
+    store the given value under the given key on every path that returns normally (the caller
+    reads back the object it stored)"""
+    repo = chk.repo
+    for root, meth in (("DictWrapper", "__setitem__"), ("DictWrapper", "__delitem__")):
+        for c in repo.subclasses(repo.cls(root)):
+            f = c.methods.get(meth)
+            if f is None:
+                continue
+            chk.saw(f)
+            me = f.self_name
+            ps = f.param_names()[1:]
+            cfg = CFG(f.node)
+
+            def is_store(n: ast.AST) -> bool:
+                if meth == "__setitem__":
+                    if isinstance(n, ast.Assign) and len(n.targets) == 1 and isinstance(n.targets[0], ast.Subscript) \
+                            and attr_path(n.targets[0].value) == (me, "_data") \
+                            and attr_path(n.targets[0].slice) == tuple(ps[:1]) and attr_path(n.value) == tuple(ps[1:2]):
+                        return True
+                else:
+                    if isinstance(n, ast.Delete) and len(n.targets) == 1 and isinstance(n.targets[0], ast.Subscript) \
+                            and attr_path(n.targets[0].value) == (me, "_data") \
+                            and attr_path(n.targets[0].slice) == tuple(ps[:1]):
+                        return True
+                for x in ast.walk(n):
+                    if isinstance(x, ast.Call) and isinstance(x.func, ast.Attribute) and x.func.attr == meth and \
+                            isinstance(x.func.value, ast.Call) and attr_path(x.func.value.func) == ("super",) and \
+                            [attr_path(a_) for a_ in x.args] == [(p_,) for p_ in ps]:
+                        return True
+                return False
+            stores = cfg.nodes_where(is_store)
+            wit = cfg.path_avoiding(cfg.entry, cfg.exit, stores)
+            chk.ob("R16.3", "%s.%s:stores-on-every-path" % (c.qualname, meth), wit is None, f.loc(),
+                   "a path through %s.%s returns without %s: %s"
+                   % (c.qualname, meth, "storing the value under the key" if meth == "__setitem__" else "deleting the key",
+                      " -> ".join(cfg.describe_path(wit)) if wit else "-"), 2)
+
+
 def _delegation_table(chk: Check) -> None:
     """the abstract-method primitives of the three wrappers are the same-named operation of
     the wrapped store, nothing more"""
@@ -748,6 +835,8 @@ def _delegation_table(chk: Check) -> None:
                    "%s redefines %s, which must stay exactly the wrapped store's operation (same result, "
                    "same exception for a missing key): it is %s"
                    % (sub_.qualname, meth, show(got2) if got2[0] != "?" else got2[1]), 2)
+    _observer_overrides(chk)
+    _write_overrides(chk)
     # operators are the mixins' business: a collection class that defines one itself must be in the
     # table of operators whose bodies are checked (R16.8)
     ops = {"__ior__", "__iand__", "__ixor__", "__isub__", "__iadd__", "__imul__", "__and__", "__xor__", "__sub__",
